@@ -5,6 +5,7 @@ package main
 
 import (
 	"go/ast"
+	"go/importer"
 	"go/parser"
 	"go/token"
 	"go/types"
@@ -87,6 +88,9 @@ func checkSnippetFset(src string) (*snippetFile, *types.Info, error) {
 	}
 	info := &types.Info{Types: map[ast.Expr]types.TypeAndValue{}, Uses: map[*ast.Ident]types.Object{}, Defs: map[*ast.Ident]types.Object{}, Selections: map[*ast.SelectorExpr]*types.Selection{}, Scopes: map[ast.Node]*types.Scope{}}
 	conf := types.Config{}
+	if len(f.Imports) > 0 {
+		conf.Importer = importer.ForCompiler(fset, "source", nil) // standard library only, from source
+	}
 	pkg, err := conf.Check(modPath+"/snippet", fset, []*ast.File{f}, info)
 	if err != nil {
 		return nil, nil, err
